@@ -159,8 +159,47 @@ func splitTop(s, op string) (string, string, bool) {
 	return "", "", false
 }
 
+// desugarGroups rewrites parenthesised groups "(A ==> B)" / "(A <==> B)" into implies(A, B) / iff(A, B).
+func desugarGroups(s string) string {
+	for {
+		changed := false
+		// find an innermost group containing an arrow
+		stack := []int{}
+		for i := 0; i < len(s); i++ {
+			switch s[i] {
+			case '(':
+				stack = append(stack, i)
+			case ')':
+				if len(stack) == 0 {
+					return s
+				}
+				open := stack[len(stack)-1]
+				stack = stack[:len(stack)-1]
+				inner := s[open+1 : i]
+				isCall := open > 0 && (s[open-1] == '_' || s[open-1] >= 'a' && s[open-1] <= 'z' || s[open-1] >= 'A' && s[open-1] <= 'Z' || s[open-1] >= '0' && s[open-1] <= '9' || s[open-1] == ']')
+				if isCall || !strings.Contains(inner, "==>") {
+					continue
+				}
+				if l, r, ok := splitTop(inner, "<==>"); ok {
+					s = s[:open] + "iff(" + l + ", " + r + ")" + s[i+1:]
+					changed = true
+				} else if l, r, ok := splitTop(inner, "==>"); ok {
+					s = s[:open] + "implies(" + l + ", " + r + ")" + s[i+1:]
+					changed = true
+				}
+			}
+			if changed {
+				break
+			}
+		}
+		if !changed {
+			return s
+		}
+	}
+}
+
 func parseCExpr(s string) (*CExpr, error) {
-	s = strings.TrimSpace(s)
+	s = desugarGroups(strings.TrimSpace(s))
 	if l, r, ok := splitTop(s, "<==>"); ok {
 		L, err := parseCExpr(l)
 		if err != nil {
